@@ -70,7 +70,9 @@ def configurations():
             # by the endpoint itself (TCPHiddenServiceEndpoint.system_tor -> txtorcon.connect)
             "str_eph", "str_key", "str_fs_localport", "str_single",
             # the caller hands over a TorConfig that is still bootstrapping (as an instance / in a fired Deferred)
-            "boot_eph", "boot_fs_d"]
+            "boot_eph", "boot_fs_d",
+            # Tor already has an authenticated filesystem service configured (loaded into the TorConfig at bootstrap)
+            "fs_beside_auth", "eph_beside_auth"]
 
 
 INVALID = ["eph_stealth", "eph_with_dir", "fs_with_key", "fs_single", "both_auth",
@@ -84,6 +86,15 @@ class Run(object):
         self.cfg, self.fault = cfg, fault
         self.proto = TorControlProtocol()
         self.connect_sim(self.proto)
+        self.authdir = None
+        if cfg.endswith("_beside_auth"):
+            self.authdir = tempfile.mkdtemp(prefix="verif-hsauth-")
+            with open(os.path.join(self.authdir, "hostname"), "w") as f:
+                f.write("aliceaaaaaaaaaaa.onion Y29va2llYWxpY2U # client: alice\n"
+                        "bobbbbbbbbbbbbbb.onion Y29va2llYm9iYm9i # client: bob\n")
+            reply = ("250-HiddenServiceDir=%s\r\n250-HiddenServiceVersion=2\r\n250-HiddenServicePort=81 127.0.0.1:8081\r\n"
+                     "250 HiddenServiceAuthorizeClient=basic alice,bob\r\n" % self.authdir).encode()
+            self.sim.handlers["GETCONF"] = lambda line: (reply if line.lower() == "getconf hiddenserviceoptions" else None)
         self.config = None
         if not cfg.startswith("str_"):
             self.proto.makeConnection(self.tr)
@@ -130,6 +141,12 @@ class Run(object):
         if cfg == "fs_localport":
             self.tmp = tempfile.mkdtemp(prefix="verif-hs-")
             return TCPHiddenServiceEndpoint(r, c, 80, hidden_service_dir=self.tmp, local_port=4321, version=3)
+        if cfg == "fs_beside_auth":
+            self.tmp = tempfile.mkdtemp(prefix="verif-hs-")
+            self.public = 443
+            return TCPHiddenServiceEndpoint(r, c, 443, hidden_service_dir=self.tmp, version=3)
+        if cfg == "eph_beside_auth":
+            return TCPHiddenServiceEndpoint(r, c, 80, ephemeral=True, version=3)
         if cfg == "eph2key":
             self.public = 8080
             return TCPHiddenServiceEndpoint(r, c, 8080, ephemeral=True, version=2, private_key="RSA1024:c29tZWtleQ==")
@@ -284,9 +301,12 @@ class Run(object):
                         m = [int(pub), host, int(port)]
             elif line.startswith("SETCONF HiddenService"):
                 import re
-                mm = re.search(r'HiddenServicePort="?(\d+) ([^":]+):(\d+)"?', line)
-                if mm:
-                    m = [int(mm.group(1)), mm.group(2), int(mm.group(3))]
+                # (services Tor already had are re-listed in the same SETCONF: ours is not the pre-existing one)
+                found = [x for x in re.findall(r'HiddenServicePort="?(\d+) ([^":]+):(\d+)"?', line)
+                         if not (self.authdir and (x[0], x[2]) == ("81", "8081"))]
+                if found:
+                    mm = found[-1]
+                    m = [int(mm[0]), mm[1], int(mm[2])]
             if m is not None and m not in self.asked:
                 self.asked.append(m)
         self.nlog = len(self.sim.log)
@@ -326,6 +346,8 @@ class Run(object):
     def close(self):
         if self.tmp and os.path.isdir(self.tmp):
             shutil.rmtree(self.tmp, True)
+        if self.authdir and os.path.isdir(self.authdir):
+            shutil.rmtree(self.authdir, True)
 
 
 def script_for(cfg, fault):
